@@ -99,8 +99,9 @@ def edge_diffs(E, O, spec=None):
             # instruction: an edge to it says as much as an edge to a proxy
             t = "proxy"
         oo.add((a, b, c, d, _norm_t(t)))
-    missing = ee - oo
-    extra = oo - ee
+    opt = {(a, b, c, d, _exp_t(t)) for (a, b, c, d, t) in getattr(E, "optional_edges", ())}
+    missing = ee - oo - opt
+    extra = oo - ee - opt
     for x in sorted(missing, key=str):
         src = E.insns.get(x[0])
         out.append(D("edge-missing", edge=_fmt(x), r_type=x[1], r_src=_role(src), r_tgt="proxy" if x[4] == "proxy" else "code", r_cause=_cause(E, x, spec), gap=gap_after(E, x[0])))
@@ -262,6 +263,10 @@ def ret_causes(E, spec):
             if t["ins"][0] == "call":
                 tgt_owner = owner.get(t["ins"][1])
                 if tgt_owner in dead_np:
+                    out.add("RA")
+                elif tgt_owner in order and tgt_owner not in per and order.index(tgt_owner) + 1 < len(order) and order[order.index(tgt_owner) + 1] in dead_np:
+                    # the same one rewrite later: the callee block is already zero-sized (its bytes went in an earlier
+                    # rewrite) and what followed it is deleted now, so block, label and call edge slide on
                     out.add("RA")
                 if t["uid"][0] == "patch" and tgt_owner is not None and func_of_blk.get(tgt_owner) is not None and func_of_blk.get(tgt_owner) == t.get("f"):
                     out.add("RB")
